@@ -55,6 +55,7 @@ PairsT = SeqT(TupT(MatchableT, MatchableT))
 
 @contract("modifiers.py", "PairedAdapterCutter._find_best_match_pair", props=["C05"])
 def find_best_match_pair(c):
+    c.runtime = {"module": "cmods", "name": "pair_adapters", "replay_count": 6000}
     c.types(self=ObjT("PairedAdapterCutter", _adapter_pairs=SeqT(TupT(MatchableT, MatchableT))),
             sequence1=Str, sequence2=Str)
     c.returns(OptT(TupT(MatchT, MatchT)))
